@@ -247,7 +247,9 @@ func VerifC03_TopicPause() {
 // raise / unpause resumes delivery. Runs without topology awareness, and with the topology
 // experiment for a zone-local and a region-local consumer (messages are then handed over on the
 // unbuffered zone / region channels).
-func VerifC03_PumpHistory() {
+func VerifC03_PumpHistory() { verifPumpHistory() }
+
+func verifPumpHistory() {
 	o := verifOpts()
 	o.MemQueueSize = 4
 	topo := verifrt.Choice("topology", 3) // 0 off, 1 zone-local consumer, 2 region-local consumer
